@@ -1,15 +1,22 @@
 /- Driver/C10.lean — line-protocol driver for the C10 model (see Base/Proto.lean). -/
 import PsutilModel.Base.Proto
 import PsutilModel.Model.C10Gen
+import PsutilModel.Model.C10Front
+import PsutilModel.Model.C10Conc
 import PsutilModel.Spec.C10
 open Lean Psutil Psutil.Proto Psutil.C10
 
 structure DSt where
   st : St
-  hist : List Op      -- chronological
+  hist : List Op                  -- chronological, `_WrapNumbers` level
+  fhist : List (FOp × Out)        -- public operations, newest first, with the promised result
 
 def parseName (s : String) : R C10.Name :=
-  if s == "disk" then .ok .disk else if s == "net" then .ok .net else .error s!"bad name {s}"
+  if s == "disk" then .ok .disk else if s == "net" then .ok .net
+  else if s == "diskper" then .ok .diskPer else .error s!"bad name {s}"
+
+def parseFn (s : String) : R Fn :=
+  if s == "disk" then .ok .disk else if s == "net" then .ok .net else .error s!"bad fn {s}"
 
 def parseRaw (j : Json) : R Raw :=
   asList (fun e => do
@@ -20,25 +27,128 @@ def parseRaw (j : Json) : R Raw :=
       pure (k, v)
     | _ => .error "raw entry must be [key, [nums]]") j
 
+def parseListing (j : Json) : R Listing :=
+  asList (fun e => do
+    match e.getArr? with
+    | .ok #[k, b, v] => do
+      let k ← asStr k
+      let b ← match b with | .bool b => pure b | _ => .error "storage flag must be a bool"
+      let v ← asList asNat v
+      pure (k, b, v)
+    | _ => .error "listing entry must be [key, storage, [nums]]") j
+
 def jRaw (r : Raw) : Json := jList (fun kv => Json.arr #[Json.str kv.1, jList jNat kv.2]) r
+
+def jName : C10.Name → Json
+  | .disk => "disk" | .net => "net" | .diskPer => "diskper"
 
 def jOut : Out → Json
   | .none => jObj [("kind", "none")]
+  | .nil => jObj [("kind", "nil")]
   | .dict r => jObj [("kind", "dict"), ("raw", jRaw r)]
+  | .total f => jObj [("kind", "total"), ("fields", jList jNat f)]
   | .indexError => jObj [("kind", "exc"), ("exc", "IndexError")]
   | .unit => jObj [("kind", "unit")]
 
-def specOut (h : List Op) : Op → Json
+def specOp (h : List Op) : Op → Out
   | .call n nowrap raw =>
-    if raw.isEmpty then jOut .none
-    else if nowrap then jOut (.dict (Spec.expected h n raw))
-    else jOut (.dict raw)
-  | _ => jOut .unit
+    if raw.isEmpty then .none
+    else if nowrap then .dict (Spec.expected h n raw)
+    else .dict raw
+  | _ => .unit
+
+/-- promised result of a public call: per-device values from the history-defined specification,
+    as a dict or summed field by field (`Spec.totalOf`) -/
+def specCall (h : List Op) (c : Call) : Out :=
+  let raw := platRaw cfg c.fn c.perdev c.listing
+  match specOp h (.call (slotOf cfg c.fn c.perdev) c.nowrap raw) with
+  | .none => if c.perdev then .none else .nil
+  | .dict r => if c.perdev then .dict r else .total (Spec.totalOf r)
+  | o => o
+
+def pastOf (fn : Fn) (fh : List (FOp × Out)) : List (Option (Bool × Bool × List Key) × Out) :=
+  fh.filterMap fun (op, o) =>
+    match op with
+    | .call c => if c.fn = fn then some (some (c.nowrap, c.perdev, c.listing.map (·.1)), o) else none
+    | .clear f => if f = fn then some (none, o) else none
+    | .clearAll => some (none, o)
+
+/-- lower bounds the property statement puts on a per-device `nowrap=True` result: for every
+    device that stayed listed by the kernel since the previous per-device `nowrap=True` call of the
+    same function (no cache_clear in between), that call's promised tuple. -/
+def floorOf (fh : List (FOp × Out)) (c : Call) : Raw :=
+  if c.nowrap && c.perdev then
+    let past := pastOf c.fn fh
+    c.listing.filterMap fun e =>
+      match Spec.prevPresent e.1 (past.map (·.1)) with
+      | none => none
+      | some j => match past[j]? with
+        | some (_, .dict r) => (r.lookup e.1).map fun v => (e.1, v)
+        | _ => none
+  else []
+
+def parseAct (j : Json) : R Act := do
+  let a ← strF j "a"
+  let t ← field j "t" >>= asNat
+  if a == "sample" then do
+    let n ← strF j "name" >>= parseName
+    let raw ← field j "raw" >>= parseRaw
+    pure (.sample t n raw)
+  else if a == "wantclear" then
+    match j.getObjVal? "name" with
+    | .ok (.str s) => do let n ← parseName s; pure (.wantClear t (some n))
+    | _ => pure (.wantClear t none)
+  else if a == "acquire" then pure (.acquire t)
+  else if a == "load" then pure (.load t)
+  else if a == "store" then pure (.store t)
+  else if a == "release" then pure (.release t)
+  else .error s!"unknown act {a}"
+
+/-- serial specification of a lock-ordered log: each body gets what the history-defined
+    specification promises after the bodies logged before it -/
+def specLog : List Op → List (Nat × Op) → List (Nat × Out)
+  | _, [] => []
+  | h, (t, op) :: rest => (t, specOp h op) :: specLog (h ++ [op]) rest
+
+def jOuts (l : List (Nat × Out)) : Json := jList (fun p => Json.arr #[jNat p.1, jOut p.2]) l
 
 def handle (d : DSt) (j : Json) : R (DSt × Json) := do
   let op ← strF j "op"
   if op == "reset" then
-    return (⟨St.init, []⟩, ok (Json.str "reset"))
+    return (⟨St.init, [], []⟩, ok (Json.str "reset"))
+  if op == "sched" then
+    let acts ← field j "acts" >>= asList parseAct
+    match runC cfg Sys.init acts with
+    | none => return (d, jObj [("model", jObj [("kind", "not-enabled")]), ("spec", Json.null)])
+    | some s =>
+      return (d, jObj [("model", jObj [("kind", "sched"), ("outs", jOuts s.outs),
+                                        ("serial", jOuts (serial cfg St.init s.log).2),
+                                        ("order", jList jNat (s.log.map (·.1))),
+                                        ("lock_free", Json.bool s.lock.isNone)]),
+                       ("spec", jOuts (specLog [] s.log))])
+  if op == "fcall" || op == "fclear" || op == "fclearall" then
+    let fo : FOp ← (
+      if op == "fcall" then do
+        let fn ← strF j "fn" >>= parseFn
+        let nw ← boolF j "nowrap"
+        let pd ← boolF j "perdev"
+        let l ← field j "listing" >>= parseListing
+        pure (FOp.call ⟨fn, nw, pd, l⟩)
+      else if op == "fclear" then do
+        let fn ← strF j "fn" >>= parseFn
+        pure (FOp.clear fn)
+      else pure FOp.clearAll)
+    let (s', out) := fstep cfg d.st fo
+    let spec : Out := match fo with
+      | .call c => specCall d.hist c
+      | _ => .unit
+    let extra : List (String × Json) := match fo with
+      | .call c => [("floor", jRaw (floorOf d.fhist c)),
+                    ("slot", jName (slotOf cfg c.fn c.perdev)),
+                    ("handed", jRaw (platRaw cfg c.fn c.perdev c.listing))]
+      | _ => []
+    return (⟨s', d.hist ++ lower cfg fo, (fo, spec) :: d.fhist⟩,
+            jObj ([("model", jOut out), ("spec", jOut spec)] ++ extra))
   let o : Op ← (
     if op == "call" then do
       let n ← strF j "name" >>= parseName
@@ -51,6 +161,6 @@ def handle (d : DSt) (j : Json) : R (DSt × Json) := do
     else if op == "clearall" then pure Op.clearAll
     else .error s!"unknown op {op}")
   let (s', out) := step cfg d.st o
-  return (⟨s', d.hist ++ [o]⟩, jObj [("model", jOut out), ("spec", specOut d.hist o)])
+  return (⟨s', d.hist ++ [o], d.fhist⟩, jObj [("model", jOut out), ("spec", jOut (specOp d.hist o))])
 
-def main : IO Unit := Proto.run (⟨St.init, []⟩ : DSt) (total handle)
+def main : IO Unit := Proto.run (⟨St.init, [], []⟩ : DSt) (total handle)
